@@ -279,6 +279,7 @@ def call_contract(self, fc, recv, args, kwargs, line, label):
     if fc.yields is not None:
         res = fresh_v("ys_" + fc.name.strip("_"), SeqS(fc.yields))
         res.lazy = lazy
+        res.gen = "pending" if not fc.trusted else False
         self.wf(res)
         short = fc.name.split(".")[-1].strip("<>_")
         env.locals["g_ys_" + short] = V(res.t, res.s)        # the caller may name the callee's yield summary in its invariants
@@ -315,6 +316,10 @@ def call_contract(self, fc, recv, args, kwargs, line, label):
             self.exec_ghost(text_, result=res)
         else:
             self.assume_use(text_, self.env.spec_view(old=self.entry, result=res))
+    if res is not None and getattr(res, "gen", False) == "pending":
+        # the contract of a generator function was applied here, at the call; its body really runs when the generator is consumed:
+        # remember the heap so that consumption after a state change is refused (as_iter_seq) instead of proved in the wrong order
+        res.gen = tuple(sorted(((k, a) for k, a in self.env.heap.items()), key=lambda kv: kv[0]))
     return res
 
 
